@@ -1332,9 +1332,14 @@ class Mailbox:
 
         # Update counts and commit state of the mailbox to the db.
         #
-        self.mtime = await Mailbox.get_actual_mtime(
-            self.server.mailbox, self.name
-        )
+        # NOTE: We remember the mtime the folder had when we started, not the
+        #       one it has now: a message that was delivered while we were
+        #       busy (after we listed the folder) has advanced the mtime, and
+        #       if we recorded that we would not look at the folder again until
+        #       something else changes it. Our own rewrite of .mh_sequences
+        #       advances it too, which costs one resync that finds nothing.
+        #
+        self.mtime = start_mtime
         self.check_set_haschildren_attr()
         await self.commit_to_db()
 
